@@ -165,7 +165,10 @@ func announceHTTP(ctx context.Context, protocol string, tracker *HTTP,
 	}
 
 	var peers []byte
-	err = bencode.DecodeBytes(reply.Peers, &peers)
+	err = errors.New("not a string")
+	if len(reply.Peers) > 0 && reply.Peers[0] >= '0' && reply.Peers[0] <= '9' {
+		err = bencode.DecodeBytes(reply.Peers, &peers)
+	}
 	if err == nil && len(peers)%6 == 0 {
 		// compact format
 		for i := 0; i < len(peers); i += 6 {
